@@ -1,7 +1,7 @@
 (* Properties.v — the property theorems, and nothing else.  Each is closed by [exact] of a lemma
    proved in the Proofs* files and followed by Print Assumptions. *)
 From Coq Require Import Permutation.
-From Godi Require Import Base GDfs GKahn GKahnComplete GraphSpec Conc Web Model Check ProofsGraph ProofsConc ProofsWeb ProofsRegistry ProofsRuntime ProofsClosed ProofsTerm ProofsWf ProofsSingle ProofsOutputs ProofsFresh ProofsGen ProofsFrame ProofsFrozen ProofsOnce ProofsConserve ProofsOnceWorld ProofsCloses ProofsOrder ProofsStable ProofsCalls ProofsAccepted.
+From Godi Require Import Base GDfs GKahn GKahnComplete GraphSpec Conc Web Model Check ProofsGraph ProofsConc ProofsWeb ProofsRegistry ProofsRuntime ProofsClosed ProofsTerm ProofsWf ProofsSingle ProofsOutputs ProofsFresh ProofsGen ProofsFrame ProofsFrozen ProofsOnce ProofsConserve ProofsOnceWorld ProofsCloses ProofsOrder ProofsStable ProofsCalls ProofsAccepted ProofsCascade ProofsErrIff.
 
 (* ---------------------------------------------------------------- C01 *)
 Theorem C01_resolving_a_singleton_is_a_table_read : forall fuel rs h d,
@@ -421,6 +421,31 @@ Theorem C12_errors_counted_exactly : forall c own l,
 Proof. exact close_insts_errors. Qed.
 Print Assumptions C12_errors_counted_exactly.
 
+(* "returns a disposal error exactly when at least one failed": a scope's Close (with all its descendants, in every
+   visiting order), the provider's Close, and the two operations *)
+Theorem C12_scope_close_reports_an_error_iff_a_close_failed : forall fuel ord p h,
+  snd (close_scope fuel ord p h) = 0 <-> none_failed (snd (fst (close_scope fuel ord p h))).
+Proof. exact close_scope_error_iff. Qed.
+Print Assumptions C12_scope_close_reports_an_error_iff_a_close_failed.
+
+Theorem C12_provider_close_reports_an_error_iff_a_close_failed : forall ord p,
+  snd (close_provider ord p) = 0 <-> none_failed (snd (fst (close_provider ord p))).
+Proof. exact close_provider_error_iff. Qed.
+Print Assumptions C12_provider_close_reports_an_error_iff_a_close_failed.
+
+Theorem C12_close_answers_nil_iff_no_close_failed : forall w pi h ord,
+  handle_ok (get_prov w pi) h = true -> h <> 0 ->
+  let '(w', evs, r) := step w (OClose pi h ord) in
+  (r = RUnit <-> none_failed evs) /\ (r <> RUnit -> exists n, n <> 0 /\ r = RErr (EDisposal n) []).
+Proof. exact close_answers_error_iff_some_close_failed. Qed.
+Print Assumptions C12_close_answers_nil_iff_no_close_failed.
+
+Theorem C12_provider_close_answers_nil_iff_no_close_failed : forall w pi ord,
+  let '(w', evs, r) := step w (OCloseProvider pi ord) in
+  (r = RUnit <-> none_failed evs) /\ (r <> RUnit -> exists n, n <> 0 /\ r = RErr (EDisposal n) []).
+Proof. exact provider_close_answers_error_iff_some_close_failed. Qed.
+Print Assumptions C12_provider_close_answers_nil_iff_no_close_failed.
+
 Theorem C12_concurrent_closes_close_nothing_twice : forall kinds sched,
   NoDup (c_closed (Conc.run (Conc.init kinds) sched)).
 Proof. exact no_double_close_init. Qed.
@@ -463,6 +488,40 @@ Theorem C13_close_closes : forall w pi h ord,
 Proof. exact close_makes_closed. Qed.
 Print Assumptions C13_close_closes.
 
+(* "closing a scope closes all its descendants": after every history, Close on a scope leaves that scope and every scope
+   below it closed - for every order in which the children are visited - and closes nothing that is not below it *)
+Theorem C13_close_closes_all_descendants_and_nothing_else : forall ops pi h ord,
+  let w := fst (run_from init_world ops) in
+  pi < length (w_provs w) -> h <> 0 -> h < length (p_scopes (get_prov w pi)) ->
+  let w' := fst (fst (step w (OClose pi h ord))) in
+  (forall k, below (parents (get_prov w pi)) h k -> closed_in w' pi k) /\
+  (forall k, closed_in w' pi k -> closed_in w pi k \/ below (parents (get_prov w pi)) h k).
+Proof. exact close_cascades_after_every_history. Qed.
+Print Assumptions C13_close_closes_all_descendants_and_nothing_else.
+
+(* "closing the provider closes every scope and makes the provider itself fail" *)
+Theorem C13_provider_close_closes_every_scope : forall ops pi ord,
+  let w := fst (run_from init_world ops) in
+  pi < length (w_provs w) -> p_open (get_prov w pi) = true ->
+  let w' := fst (fst (step w (OCloseProvider pi ord))) in
+  p_open (get_prov w' pi) = false /\ forall k, k < length (p_scopes (get_prov w pi)) -> closed_in w' pi k.
+Proof. exact provider_close_closes_all_after_every_history. Qed.
+Print Assumptions C13_provider_close_closes_every_scope.
+
+(* "cancelling the context a scope was created with closes that scope" (and, by the first theorem, what is below it) *)
+Theorem C13_cancellation_closes_the_scopes_of_that_context : forall ops c ord pi k,
+  let w := fst (run_from init_world ops) in
+  pi < length (w_provs w) -> k <> 0 -> k < length (p_scopes (get_prov w pi)) -> sc_ctx (get_scope (get_prov w pi) k) = c ->
+  closed_in (fst (fst (step w (OCancel c ord)))) pi k.
+Proof. exact cancellation_closes_after_every_history. Qed.
+Print Assumptions C13_cancellation_closes_the_scopes_of_that_context.
+
+(* the scope tables of all providers of every reachable world are forests: every scope was created after its parent,
+   nothing is open below something closed, the root scope is open as long as the provider is *)
+Theorem C13_scope_tables_are_forests_over_every_history : forall ops, Forests (fst (run_from init_world ops)).
+Proof. exact (fun ops => forests_over_histories ops init_world forests_init). Qed.
+Print Assumptions C13_scope_tables_are_forests_over_every_history.
+
 (* ---------------------------------------------------------------- C14 *)
 Theorem C14_closed_scope_holds_nothing : forall fuel ord p h,
   h < length (p_scopes p) -> sc_open (get_scope p h) = true ->
@@ -477,6 +536,14 @@ Theorem C14_closed_scope_is_never_written_again : forall ops s w pi k,
   k <> 0 -> frozen_in s w pi k -> frozen_in s (fst (run_from w ops)) pi k.
 Proof. exact closed_scope_is_frozen. Qed.
 Print Assumptions C14_closed_scope_is_never_written_again.
+
+(* "neither the provider nor the parent scope keeps the scope": a closed scope is in no list of open scopes or open
+   children, whatever happens afterwards *)
+Theorem C14_closed_scope_is_tracked_nowhere_for_ever : forall ops w pi h,
+  closed_in w pi h ->
+  let p := get_prov (fst (run_from w ops)) pi in ~ In h (open_scopes p) /\ forall q, ~ In h (open_children p q).
+Proof. exact closed_scope_untracked_for_ever. Qed.
+Print Assumptions C14_closed_scope_is_tracked_nowhere_for_ever.
 
 Theorem C14_failed_scope_creation_leaves_no_scope : forall w pi parent ctx w' evs c mods,
   pi < length (w_provs w) ->
